@@ -24,12 +24,26 @@ def _c05(tier):
     return kprogs.run_c05(tier)
 
 
+def _c16(tier):
+    from . import kprogs
+
+    return kprogs.run_c16(tier)
+
+
+def _c07(tier):
+    from . import c07
+
+    return c07.run(tier)
+
+
 CHECKS = {
     "C01": _keval("C01"),
     "C02": _keval("C02"),
     "C03": _keval("C03"),
     "C04": _c04,
     "C05": _c05,
+    "C07": _c07,
+    "C16": _c16,
 }
 
 
